@@ -40,7 +40,7 @@ func verifC19RoundTrip() {
 	_ = urls[0].host
 	u := urls[vInt(0, len(urls)-1)]
 	alpns := []string{"h2", "h3", "http/1.1", "x"}
-	nrec := vInt(0, 2+vTier())
+	nrec := vInt(0, 2)
 	var recs []dns.HTTPS
 	for i := 0; i < nrec; i++ {
 		h := dns.HTTPS{Priority: uint16(i + 1), NoDefaultALPN: vBool(), ECH: []byte{byte(i)}}
